@@ -176,5 +176,70 @@ def main():
         print("SURVIVED", s)
 
 
+# ----------------------------------------------------------------------------------------------- function-centric run
+def _worker(args):
+    qualname, kind, desc, overrides, props = args
+    import importlib
+
+    base = model.load_repo(model.REPO_ROOT)
+    outcome = "survived"
+    by = []
+    for prop in props:
+        mod = importlib.import_module(f"sa.props.{prop.lower()}")
+        known = [e for e in report.load_known(prop) if e.get("status") == "known"]
+        try:
+            repo = model.Repo(model.REPO_ROOT, overrides=overrides, share=base)
+            ctx = report.Ctx(prop, "thorough", 0, repo)
+            mod.run(ctx)
+            failing = [o for o in ctx.obligations if not o["ok"] and not any(report.matches(e, o) for e in known)]
+            if failing:
+                outcome = "fired"
+                by.append(prop)
+        except Exception:
+            if outcome != "fired":
+                outcome = "error"
+            by.append(prop + "?")
+    return qualname, kind, desc, outcome, by
+
+
+def main_all():
+    """Every analysed function x every single-point edit x every property that analyses the function."""
+    import concurrent.futures as cf
+    import sys
+
+    limit = int(sys.argv[2]) if len(sys.argv) > 2 else 0
+    base = model.load_repo(model.REPO_ROOT)
+    by_q = {f.qualname: f for f in base.functions}
+    touched: dict[str, list[str]] = {}
+    for i in range(1, 21):
+        prop = f"C{i:02d}"
+        ev = json.load(open(os.path.join(report.VERIF, "evidence", f"{prop}.json")))
+        for q in ev["coverage"]["analysed_functions"]:
+            touched.setdefault(q, []).append(prop)
+    jobs = []
+    rnd = random.Random(0)
+    for q, props in sorted(touched.items()):
+        f = by_q.get(q)
+        if f is None or f.name in ("__repr__", "__str__") or not f.module.name.startswith("secsgem"):
+            continue
+        ms = [m for m in mutants_of_function(base, f) if m[0] != "swap"]
+        if limit and len(ms) > limit:
+            ms = rnd.sample(ms, limit)
+        for kind, desc, overrides in ms:
+            jobs.append((q, kind, desc, overrides, props))
+    print(f"{len(jobs)} mutants of {len(touched)} functions", file=sys.stderr)
+    res = {"fired": 0, "error": 0, "survived": 0}
+    with cf.ProcessPoolExecutor(max_workers=14) as ex:
+        for q, kind, desc, outcome, by in ex.map(_worker, jobs, chunksize=4):
+            res[outcome] += 1
+            print(f"{outcome.upper():8s} {','.join(by):20s} {desc}")
+    print(json.dumps(res))
+
+
 if __name__ == "__main__":
-    main()
+    import sys as _sys
+
+    if len(_sys.argv) > 1 and _sys.argv[1] == "ALL":
+        main_all()
+    else:
+        main()
